@@ -1458,7 +1458,9 @@ namespace bloch::runtime {
             while (grew) {
                 grew = false;
                 for (const auto& obj : objects) {
-                    if (!obj->marked && !kept.count(obj.get()) && refersToKept(*obj)) {
+                    // Reachable referrers count too: a reachable object that owns one with a
+                    // destructor may itself be shared with a garbage cycle.
+                    if (!kept.count(obj.get()) && refersToKept(*obj)) {
                         kept.insert(obj.get());
                         grew = true;
                     }
